@@ -27,7 +27,7 @@ META = {
     "exhaustive_tiers": {"quick": {"catalogs n<=4 x 0..2 events x placeholder choices x header x 3 time spellings": True},
                          "thorough": {"catalogs n<=5 x 0..2 events x placeholder choices x header x 3 time spellings": True}},
 }
-META["added"] = 'Added: writer-model witness (sys.monitoring branch pairs), zero-valued fields, decreasing ids where the offending row is a placeholder row (with / without header).'
+META["added"] = 'Added: writer-model witness (sys.monitoring branch pairs), zero-valued fields, decreasing ids where the offending row is a placeholder row (with / without header). fractions with trailing zeros left out, LF / CRLF line ends and missing final terminator.'
 MANIFEST = {
     "technique": "boundary recorder on the three loaders, exactly-once/ordering stream checker against the writer model; sys.monitoring LINE witness on the decoder generator recording branch transitions; exhaustive small encodings + random long files + rejection cases",
     "level_text": "All encodings of n<=4 (quick) / n<=5 (thorough) catalogs with 0..2 events, every placeholder/omitted choice, with/without header and three time spellings are enumerated completely and decoded through all three loaders; the yielded stream must be ids 0..n-1 in order with bit-identical fields; random files with long gaps and hostile ids; files with decreasing ids must be rejected. The witness lists decoder branch pairs actually executed.",
@@ -55,6 +55,9 @@ def shards(tier):
 def fmt_time(ms, frac):
     d = EPOCH + datetime.timedelta(milliseconds=int(ms))
     base = d.strftime("%Y-%m-%dT%H:%M:%S")
+    if frac == "short":
+        # the same instant with the trailing zeros of the fraction left out (.5, .25, .125 ...), at least one digit
+        return base + "." + (("%06d" % d.microsecond).rstrip("0") or "0")
     if frac:
         return base + ".%06d" % d.microsecond
     return base
@@ -77,6 +80,8 @@ def write_file(path, cats, placeholders, header, spelling):
             for (eid, ms, lat, lon, depth, mag) in evs:
                 if spelling == "frac":
                     fr = True
+                elif spelling == "short":
+                    fr = "short"
                 elif spelling == "whole":
                     fr = False
                 else:
@@ -146,7 +151,7 @@ def run_file(ctx, path, expected, rc, tags, wit=None, full=True):
 
 def mk_event(r, i, hostile_id=False):
     ms = int(r.integers(-2000000000000, 7000000000000))
-    ms = ms - ms % 1000 + int(r.choice([0, 0, 1, 250, 999, int(r.integers(0, 1000))]))
+    ms = ms - ms % 1000 + int(r.choice([0, 0, 1, 250, 999, 500, 120, int(r.integers(0, 1000))]))
     if hostile_id:
         eid = str(r.choice(['a,b', 'say "hi"', " lead", "trail ", "x;y", "'q'", "1234", "id with spaces", "ci,12\"3"])) + str(i)
     else:
@@ -296,8 +301,8 @@ def run(ctx):
                 s = int(r.integers(0, 4))
             cats.append([mk_event(r, i * 10 + q, hostile_id=(j % 4 == 0)) for q in range(s)])
         ph = [bool(r.uniform() < 0.4) for _ in range(n)]
-        ex_encoding(ctx, cats, ph, bool(j % 2), ["frac", "whole", "mixed"][j % 3], full=(n <= 30),
-                    line_end=["crlf", "lf", "crlf-nofinal", "lf-nofinal"][j % 4])
+        ex_encoding(ctx, cats, ph, bool(j % 2), ["frac", "whole", "mixed", "short"][j % 4], full=(n <= 30),
+                    line_end=["crlf", "lf", "crlf-nofinal", "lf-nofinal"][(j // 4) % 4])
         if j % 60 == 0:
             ctx.sample({"random_file": True, "n_catalogs": n, "sizes_head": [len(c) for c in cats[:12]], "placeholders_head": ph[:12]})
     # rejection
